@@ -11,7 +11,7 @@
 (*                                                                         *)
 (*   {"ev":"Start","id","env":{widths...},"st":{sender state}}             *)
 (*   {"ev":"Step","id","op","data":RLE,"skip":[names],"all":bool,          *)
-(*    "obs":{"self":[RLE...],"other":[RLE...],"vic":[RLE...]}}             *)
+(*    "opt":[recipients],"obs":{"self":[RLE...],"other":[...],"vic":[...]}}*)
 (*                                                                         *)
 (* Every Step must be RunStep of module Lines in the current sender state: *)
 (* the delivered lines per recipient (minus the reply names in `skip`,     *)
@@ -62,8 +62,11 @@ Step ==
                 d == Delivered(res.out)
                 skip == {e.skip[i] : i \in DOMAIN e.skip}
                 obs == [r \in Rcpt |-> [k \in DOMAIN e.obs[r] |-> Unrle(e.obs[r][k])]]
-                ok == e.all \/ \A r \in Rcpt : ModelFor(d, r, skip) = obs[r]
-                nbad == Cardinality({<<r, k>> \in Rcpt \X (1..64) : k \in DOMAIN obs[r] /\ ~OneLineOk(obs[r][k])})
+                opt == {e.opt[i] : i \in DOMAIN e.opt}        \* recipients whose session ends in this step: the
+                                                              \* stream is cut with the session, its last batch may be missing
+                ok == e.all \/ \A r \in Rcpt : ModelFor(d, r, skip) = obs[r] \/ (r \in opt /\ obs[r] = <<>>)
+                nb(r) == Cardinality({k \in DOMAIN e.obs[r] : ~OneLineOk(Unrle(e.obs[r][k]))})
+                nbad == nb("self") + nb("other") + nb("vic")
             IN /\ st' = res.st /\ UNCHANGED env
                /\ bad' = bad + nbad
                /\ (nbad > 0 => TLCSet(2, TLCGet(2) + nbad) /\ PrintT(<<"BADLINE", l + 1, e.id, nbad>>))
